@@ -411,4 +411,170 @@ theorem coeff0_rotate_rotate (F : List Vec) (hF : InRange F) (n : Nat) (hlen : F
   simp
   omega
 
+theorem bitLen_pow_sub_one (m : Nat) (hm : 1 ≤ m) : bitLen (2 ^ m - 1) = m := by
+  unfold bitLen
+  have h1 : 2 ^ m - 1 ≠ 0 := by
+    have : 2 ≤ 2 ^ m := by
+      calc 2 = 2 ^ 1 := by norm_num
+        _ ≤ 2 ^ m := Nat.pow_le_pow_right (by norm_num) hm
+    omega
+  rw [if_neg h1]
+  have : Nat.log2 (2 ^ m - 1) = m - 1 := by
+    rw [Nat.log2_eq_iff h1]
+    have e : 2 ^ m = 2 * 2 ^ (m - 1) := by
+      have : m = (m - 1) + 1 := by omega
+      conv => lhs; rw [this, pow_succ]
+      ring
+    have hp : 0 < 2 ^ (m - 1) := by positivity
+    have : m - 1 + 1 = m := by omega
+    rw [this]
+    constructor <;> omega
+  rw [this]; omega
+
+/-- Horner value of the first `j+1` digits: `Σ_{i≤j} d_i · 2^{b(j-i)}` -/
+def hv (b : Nat) (ds : Nat → Int) : Nat → Int
+  | 0 => ds 0
+  | j + 1 => hv b ds j * 2 ^ b + ds (j + 1)
+
+/-- the scalar recursion of `mod_switch_2n`'s limb loop (one coefficient) -/
+def msRec (b rem size : Nat) (ds : Nat → Int) : Nat → Int
+  | 0 => ds 0
+  | j + 1 =>
+    if j + 1 = size - 1 ∧ rem ≠ b then w64 (w64 (msRec b rem size ds j * 2 ^ (b - rem)) + divRoundByPow2 (ds (j + 1)) rem)
+    else w64 (w64 (msRec b rem size ds j * 2 ^ b) + ds (j + 1))
+
+theorem hv_bound (b : Nat) (hb : 1 ≤ b) (ds : Nat → Int) (hd : ∀ i, -(2:Int) ^ (b - 1) ≤ ds i ∧ ds i ≤ 2 ^ (b - 1)) :
+    ∀ j, -((2:Int) ^ (b * (j + 1)) - 1) ≤ hv b ds j ∧ hv b ds j ≤ 2 ^ (b * (j + 1)) - 1 := by
+  have e : (2:Int) ^ b = 2 * 2 ^ (b - 1) := by
+    have : b = (b - 1) + 1 := by omega
+    conv => lhs; rw [this, pow_succ]
+    ring
+  have hp : (0:Int) < 2 ^ (b - 1) := by positivity
+  intro j
+  induction j with
+  | zero =>
+    have := hd 0
+    simp only [hv, Nat.zero_add, Nat.mul_one]
+    rw [e]; constructor <;> omega
+  | succ j ih =>
+    have h1 := hd (j + 1)
+    simp only [hv]
+    have e2 : (2:Int) ^ (b * (j + 1 + 1)) = 2 ^ (b * (j + 1)) * 2 ^ b := by
+      rw [← pow_add]; congr 1
+    rw [e2]
+    have hP : (0:Int) < 2 ^ (b * (j + 1)) := by positivity
+    generalize (2:Int) ^ (b * (j + 1)) = P at *
+    generalize hv b ds j = H at *
+    rw [e]
+    generalize (2:Int) ^ (b - 1) = Q at *
+    constructor <;> nlinarith
+
+theorem w64_id (x : Int) (h1 : -(2:Int)^63 ≤ x) (h2 : x < 2^63) : w64 x = x := by unfold w64; omega
+
+theorem msRec_full (b rem size : Nat) (hb : 1 ≤ b) (ds : Nat → Int)
+    (hd : ∀ i, -(2:Int) ^ (b - 1) ≤ ds i ∧ ds i ≤ 2 ^ (b - 1)) :
+    ∀ j, (j < size - 1 ∨ rem = b) → b * (j + 1) ≤ 62 → msRec b rem size ds j = hv b ds j := by
+  intro j
+  induction j with
+  | zero => intro _ _; rfl
+  | succ j ih =>
+    intro hc hov
+    have hc' : j < size - 1 ∨ rem = b := by omega
+    have ihj := ih hc' (by have : b * (j + 1) ≤ b * (j + 1 + 1) := Nat.mul_le_mul_left b (by omega); omega)
+    have hcond : ¬ (j + 1 = size - 1 ∧ rem ≠ b) := by omega
+    simp only [msRec, hcond, if_false, ihj, hv]
+    have hbnd := hv_bound b hb ds hd j
+    have hbnd1 := hv_bound b hb ds hd (j + 1)
+    simp only [hv] at hbnd1
+    have hd1 := hd (j + 1)
+    have hle : (2:Int) ^ (b * (j + 1 + 1)) ≤ 2 ^ 62 := pow_le_pow_right₀ (by norm_num) hov
+    have e : (2:Int) ^ b = 2 * 2 ^ (b - 1) := by
+      have : b = (b - 1) + 1 := by omega
+      conv => lhs; rw [this, pow_succ]
+      ring
+    have hq : (0:Int) < 2 ^ (b - 1) := by positivity
+    have hbb : b ≤ b * (j + 1 + 1) := Nat.le_mul_of_pos_right b (by omega)
+    have hq2 : (2:Int) ^ (b - 1) ≤ 2 ^ 61 := pow_le_pow_right₀ (by norm_num) (by omega)
+    have hinner : w64 (hv b ds j * 2 ^ b) = hv b ds j * 2 ^ b := by
+      apply w64_id <;> nlinarith
+    rw [hinner]
+    apply w64_id <;> nlinarith
+
+/-- the body of the limb loop, as in `modSwitch2n` -/
+def msStep (b rem size : Nat) (limbs : List (List Int)) (sgn : Int → Int) (y : List Int) (i' : Nat) : List Int :=
+  let i := i' + 1
+  let xi := (limbs.getD i []).map sgn
+  if i = size - 1 ∧ rem ≠ b then
+    let kRem := b - rem
+    List.zipWith (fun x y => w64 (w64 (y * 2 ^ kRem) + divRoundByPow2 x rem)) xi y
+  else
+    List.zipWith (fun x y => w64 (w64 (y * 2 ^ b) + x)) xi y
+
+theorem msFold_singleton (b rem size : Nat) (xs : List Int) (sgn : Int → Int) :
+    ∀ j, j < xs.length →
+      (List.range j).foldl (msStep b rem size (xs.map fun x => [x]) sgn) [sgn (xs.getD 0 0)] =
+        [msRec b rem size (fun i => sgn (xs.getD i 0)) j] := by
+  intro j
+  induction j with
+  | zero => intro _; rfl
+  | succ j ih =>
+    intro hj
+    rw [List.range_succ, List.foldl_append, ih (by omega)]
+    simp only [List.foldl_cons, List.foldl_nil, msStep, msRec]
+    have hget : (List.map (fun x => [x]) xs).getD (j + 1) [] = [xs.getD (j + 1) 0] := by
+      simp [List.getD, List.getElem?_map, List.getElem?_eq_getElem hj]
+    rw [hget]
+    split <;> simp
+
+
+theorem ms_last (H d : Int) (b r q : Nat) (hbrq : b = r + q) (hq1 : 1 ≤ q) (hb60 : b ≤ 61)
+    (hd : -(2:Int) ^ (b - 1) ≤ d ∧ d ≤ 2 ^ (b - 1))
+    (hH : -(2:Int) ^ 62 ≤ H * 2 ^ b ∧ H * 2 ^ b ≤ 2 ^ 62) :
+    w64 (w64 (H * 2 ^ r) + divRoundByPow2 d q) = (H * 2 ^ b + d + 2 ^ (q - 1)) / 2 ^ q := by
+  have hsplit : (2:Int) ^ b = 2 ^ r * 2 ^ q := by rw [← pow_add, hbrq]
+  have hr0 : (0:Int) < 2 ^ r := by positivity
+  have hq0 : (0:Int) < 2 ^ q := by positivity
+  have hb1 : 1 ≤ b := by omega
+  have hqh : (2:Int) ^ q = 2 * 2 ^ (q - 1) := by
+    have : q = (q - 1) + 1 := by omega
+    conv => lhs; rw [this, pow_succ]
+    ring
+  have hqh0 : (0:Int) < 2 ^ (q - 1) := by positivity
+  have hqle : (2:Int) ^ (q - 1) ≤ 2 ^ (b - 1) := pow_le_pow_right₀ (by norm_num) (by omega)
+  have hble : (2:Int) ^ (b - 1) ≤ 2 ^ 60 := pow_le_pow_right₀ (by norm_num) (by omega)
+  have hdr : divRoundByPow2 d q = (d + 2 ^ (q - 1)) / 2 ^ q := by
+    unfold divRoundByPow2
+    rw [w64_id] <;> omega
+  rw [hdr]
+  have hval : (H * 2 ^ b + d + 2 ^ (q - 1)) / 2 ^ q = H * 2 ^ r + (d + 2 ^ (q - 1)) / 2 ^ q := by
+    rw [hsplit]
+    have : H * (2 ^ r * 2 ^ q) + d + 2 ^ (q - 1) = (d + 2 ^ (q - 1)) + (H * 2 ^ r) * 2 ^ q := by ring
+    rw [this, Int.add_mul_ediv_right _ _ (ne_of_gt hq0)]
+    ring
+  rw [hval]
+  have hdiv_lo : -(2:Int) ^ (b - 1) ≤ (d + 2 ^ (q - 1)) / 2 ^ q := by
+    apply Int.le_ediv_of_mul_le hq0
+    have : -(2:Int) ^ (b - 1) * 2 ^ q ≤ -(2:Int) ^ (b - 1) := by nlinarith
+    omega
+  have hdiv_hi : (d + 2 ^ (q - 1)) / 2 ^ q ≤ 2 ^ (b - 1) := by
+    apply Int.ediv_le_of_le_mul hq0
+    have : (2:Int) ^ (b - 1) * 2 ≤ 2 ^ (b - 1) * 2 ^ q := by nlinarith
+    nlinarith
+  have hHr : -(2:Int) ^ 62 ≤ H * 2 ^ r ∧ H * 2 ^ r ≤ 2 ^ 62 := by
+    have hrb : (2:Int) ^ r ≤ 2 ^ b := pow_le_pow_right₀ (by norm_num) (by omega)
+    rcases le_or_gt 0 H with h | h
+    · constructor <;> nlinarith
+    · constructor <;> nlinarith
+  rw [w64_id (H * 2 ^ r) (by omega) (by omega)]
+  apply w64_id <;> omega
+
+
+theorem getD_bounded (xs : List Int) (B : Int) (hB : 0 ≤ B) (hx : ∀ x ∈ xs, -B ≤ x ∧ x ≤ B) (i : Nat) :
+    -B ≤ xs.getD i 0 ∧ xs.getD i 0 ≤ B := by
+  rw [List.getD_eq_getElem?_getD]
+  cases hgi : xs[i]? with
+  | none => simp only [Option.getD_none]; constructor <;> omega
+  | some v => simp only [Option.getD_some]; exact hx v (List.mem_of_getElem? hgi)
+
+
 end Lut
